@@ -1,6 +1,7 @@
 package gobwas
 
 import (
+	"bytes"
 	"context"
 	"io"
 	"net"
@@ -20,12 +21,33 @@ type rwc struct {
 // WebSocketDial returns a Codec that wraps a client-side connection with JSON
 // encoding and decoding.
 func WebSocketDial(ctx context.Context, url string) (jsonrpc2.Codec, error) {
-	conn, _, _, err := ws.Dial(ctx, url)
+	conn, br, _, err := ws.Dial(ctx, url)
 	if err != nil {
 		return nil, err
 	}
+	if br != nil {
+		// The server's first frames arrived together with the handshake
+		// response and are sitting in the dialer's read buffer.
+		buffered, _ := br.Peek(br.Buffered())
+		conn = &prefixedConn{
+			Conn: conn,
+			r:    io.MultiReader(bytes.NewReader(append([]byte{}, buffered...)), conn),
+		}
+		ws.PutReader(br)
+	}
 
 	return clientWebSocketCodec(conn), nil
+}
+
+// prefixedConn is a net.Conn whose reads first drain bytes that were already
+// read from the connection.
+type prefixedConn struct {
+	net.Conn
+	r io.Reader
+}
+
+func (c *prefixedConn) Read(p []byte) (int, error) {
+	return c.r.Read(p)
 }
 
 func clientWebSocketCodec(conn net.Conn) jsonrpc2.Codec {
